@@ -29,4 +29,26 @@ CHECKS = {
         'technique': 'property-based testing (Hypothesis) + exhaustive enumeration against an exact min-cost oracle',
         'engine': 'hypothesis',
     },
+    'C03': {
+        'text': 'Exhaustive over all flat operator sequences of length <= 4 (with unary minus / exponent sign) on two leaf '
+                'sets against an independent precedence-climbing parser, exhaustive literal formats x suffixes against '
+                'exact rationals, and Hypothesis-generated expression trees rendered in several styles against a '
+                'reference evaluator; invalid-by-construction strings must raise parse errors; case variants of bound '
+                'names must be undefined; grader verdicts on constant expressions.',
+        'note': 'Trusts the reference evaluator (Python float/complex arithmetic, reals kept real) and the renderer as an '
+                'independent encoding of the documented grammar; ill-conditioned / near-branch-cut / |v|>1e12 cases are '
+                'discarded and counted.',
+        'technique': 'property-based testing (Hypothesis) + exhaustive enumeration; differential against a reference '
+                     'parser/evaluator; metamorphic (rendering independence)',
+    },
+    'C04': {
+        'text': 'Hypothesis-generated graders whose samples are scripted by an author-defined sampling set; student '
+                'formulas with an exactly known number of failing samples, relative-error cases that separate '
+                '"percent of expected" from "percent of student", exact dyadic boundary cases, infinities, rewrites, '
+                'arrays (Frobenius vs max norm), judged against the tolerance/failable_evals rule.',
+        'note': 'Trusts the reference evaluator; a 1e-7 guard band around the tolerance boundary is discarded except in '
+                'the exact (rounding-free) boundary classes; magnitudes above 1e8 are out of scope.',
+        'technique': 'property-based testing (Hypothesis) against a reference model of the tolerance rule with '
+                     'oracle-controlled samples',
+    },
 }
